@@ -95,12 +95,22 @@ for _s in [
 class Scope:
     def __init__(self):
         self.stack = [dict()]
+        self.kinds = ["file"]
 
-    def push(self):
+    def push(self, kind="block"):
         self.stack.append(dict())
+        self.kinds.append(kind)
 
     def pop(self):
         self.stack.pop()
+        self.kinds.pop()
+
+    def resolving_kind(self, name):
+        """kind of the scope ('file', 'block', 'proto') whose declaration of `name` is the visible one, or None"""
+        for s, k in zip(reversed(self.stack), reversed(self.kinds)):
+            if name in s:
+                return k
+        return None
 
     def declare(self, name, is_typedef):
         cur = self.stack[-1]
@@ -123,6 +133,9 @@ class RefParser:
         self.p = 0
         self.scope = Scope()
         self.classified = []  # (token index, name, is_type) for every identifier token classified by scope
+        self.proto_resolved = set()  # token indices classified through a declaration in a function prototype scope
+        self.suffix_ranges = []  # (index of '(', index of ')', function-suffix object) of every parameter list
+        self.def_param_ranges = []  # (index of '(', index of ')') of the own parameter list of each function definition
         self.depth = 0
 
     # ------------------------------------------------------------ token helpers
@@ -168,6 +181,8 @@ class RefParser:
         name = self.name_of(t)
         r = self.scope.is_type(name)
         self.classified.append((t.i, name, r))
+        if self.scope.resolving_kind(name) == "proto":
+            self.proto_resolved.add(t.i)
         return r
 
     def starts_decl_spec(self, k=0):
@@ -252,7 +267,10 @@ class RefParser:
                     raise RefReject("nested function definition")
                 self.scope.declare(name, False)
                 func = d["chain"][0]
+                self.def_param_ranges += [(a, b) for a, b, r in self.suffix_ranges if r is func]
                 knr = []
+                # parameters (and the declarations of a K&R declaration list) live in the body's block scope
+                self.scope.push()
                 if not self.at("LBRACE"):
                     if func[1] is None or func[1][0] != "idlist":
                         raise RefReject("declaration list without identifier list")
@@ -260,8 +278,6 @@ class RefParser:
                         if not self.starts_decl_spec():
                             raise RefReject("declaration expected in K&R declaration list")
                         knr.extend(self.declaration_or_function(allow_function=False))
-                # parameters live in the body's block scope
-                self.scope.push()
                 params = func[1]
                 if params is not None:
                     if params[0] == "idlist":
@@ -563,12 +579,18 @@ class RefParser:
         return ("array", dim, dq)
 
     def function_suffix(self, named):
+        i0 = self.la().i if self.la() is not None else -1
+        res = self._function_suffix(named)
+        self.suffix_ranges.append((i0, self.toks[self.p - 1].i, res))
+        return res
+
+    def _function_suffix(self, named):
         self.expect("LPAREN")
         if self.accept("RPAREN"):
             return ("func", None)
         if self.starts_decl_spec():
             # prototype scope
-            self.scope.push()
+            self.scope.push("proto")
             try:
                 params = []
                 while True:
